@@ -8,7 +8,8 @@ acc() { # id property scopes kinds what
   [ -z "$files" ] && return
   python3 mc/findings.py accept --id "$id" --property $prop --scope "$scopes" --kind "$kinds" --what "$what" $files
 }
-rm -f known_findings.jsonl.new
+# rebuild from scratch: keep the fixed: records, drop every open finding and witness list
+grep '^fixed:' known_findings.jsonl > known_findings.jsonl.new; mv known_findings.jsonl.new known_findings.jsonl; rm -f known_witnesses/*.jsonl
 ./accept_C02.sh $(ls $D/C02.q $D/C02.t 2>/dev/null) >/dev/null
 acc C01-listen-emptied-intelligent-choice C01 listen '*' "listen: after all children were removed, to_string(intelligent_choice=True) returns an empty <listen/> (schema requires one child)"
 acc C03-xml-namespace-attributes-renamed C03 accidental-text,directive,formatted-text,formatted-text-id,lyric-language,text-element-data,text-formatting '*' "attribute tables: xml:lang / xml:space are declared as 'lang' / 'space' (lyric-language loses use=required)"
@@ -19,7 +20,7 @@ acc C05-anyuri-unchecked C05 xs:anyURI '*' "xs:anyURI accepts any string (no lex
 acc C05-language-pattern-narrower-than-xsd C05 xs:language '*' "xs:language is modelled by the RFC-1766 pattern of xml.xsd: language tags valid for XML Schema (1-8 letter primary tag) are refused"
 acc C05-date-day-of-month C05 yyyy-mm-dd,xs:date '*' "dates are validated by a regular expression only: 2000-02-30 is accepted"
 acc C06-duplicated-sequence-remove-then-add C06 interchangeable,time '*' "time / interchangeable: after removing a child of a repeated (beats, beat-type) group, a re-added child is missing from the ordered view and the output"
-acc C06-part-list-intelligent-choice C06 part-list '*' "part-list: forward / intelligent-choice re-arrangement leaves the ordered view out of step with the insertion view"
+acc C06-note-ties-then-grace C06 note '*' "note: add(tie), add(tie), add(grace): the intelligent-choice re-attachment drops one tie from the ordered view and the output"
 acc C10-metronome-refused-serialisation C10 metronome '*' "metronome: a refused to_string changes the later verdict / acceptance"
 acc C10-failed-replace-readds-old-child C10 credit,lyric,listen,notehead-text,harmony,key,note,part-list,score-part,sound,time,interchangeable,ornaments,direction-type '*' "a refused call that went through remove-and-re-add or duplication (different-name replace_child, wrong forward) leaves matcher flags that change later acceptance"
 acc C11-removal-leaves-matcher-flags C11 '*' '*' "remove(): force_validate / chosen_child / duplicated containers are not reset: an optional child added and removed is reported as required, alternatives stay blocked, serialisation verdict differs from a rebuilt twin"
